@@ -7,6 +7,9 @@ import GormModel.Lemmas.Migrate
 import GormModel.Lemmas.MigrateReorder
 import GormModel.Lemmas.MigrateReach
 import GormModel.Gen.MigrateOptFacts
+import GormModel.Model.MigrateJoin
+import GormModel.Lemmas.MigrateJoin
+import GormModel.Gen.MigrateJoinFacts
 namespace Gorm.Mig
 
 /-- CORE LEMMA.  For EVERY field declaration, MigrateColumn on the column report of a faithful dialect issues nothing:
@@ -660,5 +663,89 @@ theorem C20_reorder_join_behind_dependency_counterexample :
 example : reorderModelsOpt { disableFK := true, ignoreRel := false } exRels [exArticle] true =
     [exAuthor, exArticle, exTag, exArticleTags] := exRels_disableFK
 example : reorderModelsOpt { disableFK := true, ignoreRel := true } exRels [exArticle] true = [exArticle] := exRels_ignoreRel
+
+/-! ### round 3: what an auto-created many2many join table inherits from the columns it references -/
+
+/-- REGENERATED FACTS (extract/gen_c20_join.go, every run): schema.buildMany2ManyRelation builds a join-table field in
+    exactly two places — the loop over the owner's key fields and the loop over the referenced fields — and BOTH copy the
+    source field's struct tag through `removeSettingFromTag(appendSettingFromTag(tag, "primaryKey"), …)` with the SAME
+    literal clean-up list `column, autoincrement, index, unique, uniqueindex`, which is the list `joinStrip` the model
+    `joinCol` (and every theorem below) uses; the only other field of the generated struct is the ignored back pointer.
+    A shortened or reordered list on either side breaks this obligation. -/
+theorem C20_join_strip_lists :
+    Gen.joinTagCalls =
+      [{ source := "ownField.StructField.Tag", appended := String.ofList joinAppend,
+         names := joinStrip.map String.ofList, literal := true },
+       { source := "relField.StructField.Tag", appended := String.ofList joinAppend,
+         names := joinStrip.map String.ofList, literal := true }] ∧
+    Gen.joinTagOther = ["`gorm:\"-\"`"] := by decide
+
+set_option maxRecDepth 20000 in
+/-- REGENERATED FACTS: the helper bodies the model transcribes (`removeSetting` = one `ReplaceAllString` of the unanchored,
+    case-insensitive pattern per name with replacement `${1}${5}`; `appendSetting` = the `strings.Contains` guard and the
+    `gorm:"%s;%s"` rebuild) and the readers of the resulting settings (`Field.Unique` = CheckTruth(UNIQUE) feeding
+    ParseUniqueConstraints, the INDEX / UNIQUEINDEX gate of ParseIndexes, `Field.PrimaryKey`) are the ones in the source. -/
+theorem C20_join_tag_helpers_transcribed :
+    Gen.removeSettingBody =
+      ["for _, name := range names { tag = reflect.StructTag(regexp.MustCompile(`(?i)(gorm:.*?)(`+name+`(:.*?)?)(;|(\"))`).ReplaceAllString(string(tag), \"${1}${5}\")) }",
+       "return tag"] ∧
+    Gen.appendSettingBody =
+      ["t := tag.Get(\"gorm\")", "if strings.Contains(t, value) { return tag }",
+       "return reflect.StructTag(fmt.Sprintf(`gorm:\"%s;%s\"`, value, t))"] ∧
+    Gen.uniqueReaders =
+      [("Field.TagSettings", "tagSetting"),
+       ("Field.PrimaryKey", "utils.CheckTruth(tagSetting[\"PRIMARYKEY\"], tagSetting[\"PRIMARY_KEY\"])"),
+       ("Field.AutoIncrement", "utils.CheckTruth(tagSetting[\"AUTOINCREMENT\"])"),
+       ("Field.Unique", "utils.CheckTruth(tagSetting[\"UNIQUE\"])"),
+       ("ParseUniqueConstraints.if", "field.Unique"),
+       ("ParseIndexes.if", "field.TagSettings[\"INDEX\"] != \"\" || field.TagSettings[\"UNIQUEINDEX\"] != \"\"")] := by decide
+
+set_option maxRecDepth 20000 in
+/-- the m8 shape, computed by the model: `References:` a column tagged `uniqueIndex` / `unique` / `uniqueIndex:name` with
+    further settings — the join column is a plain member of the composite primary key, neither unique nor indexed -/
+theorem C20_join_column_examples :
+    (joinCol joinStrip (gormTag "uniqueIndex".toList)).unique = false ∧
+    (joinCol joinStrip (gormTag "unique".toList)).unique = false ∧
+    (joinCol joinStrip (gormTag "size:30;unique;not null".toList)).unique = false ∧
+    (joinCol joinStrip (gormTag "uniqueIndex:ux_c;size:40".toList)).tag = "gorm:\"primaryKey;uniquesize:40\"".toList ∧
+    (joinCol joinStrip (gormTag "index:ix,unique".toList)).indexed = false ∧
+    (joinCol joinStrip (gormTag "uniqueIndex".toList)).primaryKey = true ∧
+    -- without `unique` in the list (the seeded shape) the column would stay unique:
+    (joinCol (["column", "autoincrement", "index", "uniqueindex"].map String.toList) (gormTag "uniqueIndex".toList)).unique = true := by
+  decide
+
+/-- A source column WITHOUT any uniqueness / index setting (arbitrarily many settings, none of which contains one of the
+    stripped names): the join-table column buildMany2ManyRelation derives from it is neither UNIQUE (no `uni_…` constraint
+    from ParseUniqueConstraints) nor indexed — for every list of settings. -/
+theorem C20_join_column_clean (ss : List Str) (h : ∀ s ∈ ss, CleanSetting s) :
+    (joinCol joinStrip (gormTag (joinWith ';' ss))).unique = false ∧
+    (joinCol joinStrip (gormTag (joinWith ';' ss))).indexed = false := joinCol_clean ss h
+
+/-- FINDING F30 (unchanged tree, reproduced end to end on SQLite: the second link to a shared target is dropped silently).
+    "A join-table column is never unique by itself" does NOT hold for every tag: `removeSettingFromTag` removes ONE match per
+    name, so of two uniqueness settings one survives as `unique`; and `uniqueIndex` followed by a blank setting leaves
+    `unique ` (key UNIQUE after trimming). -/
+theorem C20_join_column_unique_counterexample :
+    (joinCol joinStrip (gormTag "unique;uniqueIndex".toList)).unique = true ∧
+    (joinCol joinStrip (gormTag "uniqueIndex:a;uniqueIndex:b".toList)).unique = true ∧
+    (joinCol joinStrip (gormTag "uniqueIndex; ".toList)).unique = true ∧
+    (joinCol joinStrip (gormTag "index:a;index:b".toList)).indexed = true :=
+  ⟨joinCol_two_unique_witness, joinCol_two_uniqueIndex_witness, joinCol_glue_space_witness, joinCol_two_index_witness⟩
+
+/-- THE PROPERTY OF THE CLEAN-UP LIST, outside the finding's pattern: a source column with exactly ONE uniqueness / index
+    setting `hot` — `unique`, `uniqueIndex`, `index` in any letter case, bare or with a (clean) value — anywhere among
+    arbitrarily many other settings gives a join-table column that is NOT unique and NOT indexed: the only uniqueness of an
+    auto-created join table is its composite primary key, so one target row can be linked to any number of owners.
+    (Proviso for `uniqueIndex`: the next setting does not begin with white space — the third witness above.)
+    Together with `C20_join_strip_lists` this is what the seeded change (a list without `unique`) destroys. -/
+theorem C20_join_column_unique_partial (pre post : List Str) (hot : Str)
+    (hpre : ∀ s ∈ pre, CleanSetting s) (hpost : ∀ s ∈ post, CleanSetting s) (hh : HotSetting hot)
+    (hg : HotWith nUniqueIndex hot → GlueSafe post) :
+    let c := joinCol joinStrip (gormTag (joinWith ';' (pre ++ hot :: post)))
+    c.unique = false ∧ c.indexed = false := joinCol_single_hot pre post hot hpre hpost hh hg
+
+/-- non-vacuity: `size:10;uniqueIndex:ux;not null` -/
+example : (joinCol joinStrip (gormTag (joinWith ';' (["size:10".toList] ++ "uniqueIndex:ux".toList :: ["not null".toList])))).unique = false := by
+  decide
 
 end Gorm.Mig
